@@ -15,7 +15,7 @@ from props import c06 as A
 PID = "C16"
 MODULES = ["FlVerif.Props.C16"]
 NAMESPACE = "C16"
-TIE_A = []
+TIE_A = ["code:fuzzylite.rule.Rule.parse"]
 RULE = ("valid rules (antecedents to depth 3 with hedges / any / parentheses, 1-3 conclusions with hedges, optional weight) "
         "over generated engines, mutated by token deletion, duplication, substitution (keywords, valid and unknown names, "
         "numbers, parentheses), truncation at every token boundary, reordering, plus one-error injections of every listed "
@@ -621,7 +621,14 @@ def correspond(ctx):
         st.case((case["text"], json.dumps(case["vars"], sort_keys=True)), nt,
                 sample={"text": case["text"], "impl": r["kind"] if r["kind"] != "ok" else "accepted", "model": o[:80]}
                 if case["kind"] == "injected" else None)
-        if bad:
+        if bad and m[0] == "err" and r["kind"] == "ok":
+            # the acceptance set of the model is *proved* to be the documented grammar (ruleParse_accepts_iff,
+            # consequentLoad_accepts_iff, antecedentLoad_sound): a text the model rejects and the implementation accepts
+            # is an ill-formed rule that was accepted
+            d = (f"rule text '{case['text']}' is not of the documented form ({m[1]} error at {m[2]} in the grammar model) but "
+                 f"was accepted: loaded as [{' '.join(r['postfix'])}] then {r['concl']} weight {r['weight']}")
+            mism.append({"case": case, "violation": True, "detail": d, "what": d})
+        elif bad:
             mism.append({"case": case, "impl": {k: r[k] for k in ("kind", "msg", "postfix", "concl")}, "model": o[:200],
                          "what": bad})
         else:
